@@ -186,7 +186,7 @@ def one_mode(job) -> Dict[str, Any]:
         runner = lambda: p.process(payload())
     elif mode == "fresh":
         runner = lambda: Pipeline(nodes).process(payload())
-    elif mode in ("fresh-traced", "reused-traced"):
+    elif mode in ("fresh-traced", "reused-traced", "fresh-traced-file"):
         import shutil
         import tempfile
         from semantiva.trace.drivers.jsonl import JsonlTraceDriver
@@ -195,6 +195,8 @@ def one_mode(job) -> Dict[str, Any]:
         cleanup = lambda: shutil.rmtree(tdir, ignore_errors=True)
         if mode == "fresh-traced":      # a new Pipeline AND a new trace driver per run
             runner = lambda: Pipeline(nodes, trace=JsonlTraceDriver(tdir, detail="hash")).process(payload())
+        elif mode == "fresh-traced-file":      # ... with the SINGLE-FILE layout (a path with an extension): every run appends to one file
+            runner = lambda: Pipeline(nodes, trace=JsonlTraceDriver(tdir + "/all.ser.jsonl", detail="hash")).process(payload())
         else:
             p3 = Pipeline(nodes, trace=JsonlTraceDriver(tdir, detail="hash"))
             roots["Pipeline"] = p3
@@ -353,7 +355,7 @@ def check(tier: str) -> int:
     run.add_tlc(sens, count_states=False)
     cps = (20, 60, 180) if tier == "quick" else CHECKPOINTS
     progs = list(PROGRAMS)
-    jobs = [{"prog": p, "mode": m, "checkpoints": cps} for p in progs for m in ("reused", "fresh", "launch", "queue", "fresh-traced", "reused-traced", "cli")]
+    jobs = [{"prog": p, "mode": m, "checkpoints": cps} for p in progs for m in ("reused", "fresh", "launch", "queue", "fresh-traced", "reused-traced", "cli", "fresh-traced-file")]
     results = []
     for chunk in pmap(modes_chunk, jobs, chunk=1, tasks_per_child=1):
         results += [r for r in chunk if r["samples"]]
@@ -362,7 +364,7 @@ def check(tier: str) -> int:
         run.evaluations += cps[-1]
         if "stalled" in r["samples"]:
             info = r["samples"]["stalled"]["info"]
-            mode_ = r["mode"].replace("-traced", "").replace("cli", "fresh")
+            mode_ = r["mode"].replace("-traced-file", "").replace("-traced", "").replace("cli", "fresh")
             run.violation(f"run-cost-grows:{mode_}", f"program {r['prog']}, {r['mode']}: run {info['at']} took {info['took']} s, the first runs took "
                           f"{info['median_of_first_runs']} s each -- the cost of run N depends on N", {"prog": r["prog"], "mode": r["mode"]})
             if "early" in r["samples"]:
@@ -375,7 +377,7 @@ def check(tier: str) -> int:
         per_run = {}
         for kind, name, d in g:
             per_run[f"{kind}:{name}"] = round(d / (cps[2] - cps[1]), 2)
-            run.violation(f"{kind}-growth:{r['mode'].replace('-traced', '').replace('cli', 'fresh')}:{name}",      # traced variants / command line: same way of repeating (fresh objects per run)
+            run.violation(f"{kind}-growth:{r['mode'].replace('-traced-file', '').replace('-traced', '').replace('cli', 'fresh')}:{name}",      # traced variants / command line: same way of repeating (fresh objects per run)
                           f"program {r['prog']}, {r['mode']}: {kind} counter {name} grows by {d} between run {cps[1]} and run {cps[2]} "
                           f"({d / (cps[2] - cps[1]):.2f} per run) -- the cost of run N depends on N", {"prog": r["prog"], "mode": r["mode"]})
         run.extra.setdefault("growth_per_run", {})[f"{r['prog']}/{r['mode']}"] = per_run
